@@ -219,7 +219,12 @@ class C04(runner.Check):
     prop = 'C04'
     level = 'proof'
     theorems = ('TM.C04_step', 'TM.C04_history', 'TM.C04_state_of_failure', 'TM.C04_finalize_never_replaces',
-                'TM.C04_no_later_stage')
+                'TM.C04_no_later_stage',
+                # hierarchical engine (Props/C04N.lean)
+                'TM.C04N_step', 'TM.C04N_step_noCmds', 'TM.C04N_history', 'TM.C04N_monitor_accepts_model',
+                'TM.C04N_no_later_stage', 'TM.C04N_finalize_never_replaces', 'TM.C04N_outcome',
+                'TM.C04N_state_of_failure', 'TM.C04N_state_of_success', 'TM.C04N_conf_frozen', 'TM.C04N_conf_reach',
+                'TM.C04N_usable_afterwards', 'TM.C04N_sameMachine_step')
     manifest = dict(
         level='proof', design='DESIGN.md 4/C04',
         text="Lean 4 theorems C04_step / C04_history: for every flat configuration, every history and EVERY script without re-entrant commands (any callback, condition, on_exception handler or finalize callback may raise any exception at any invocation) the engine model's trace is accepted by the containment acceptor (segment cut after the first raising call, handlers iff registered, finalize always with its own exception swallowed, outcome raised/normal, state = source or destination by failing stage) and the machine is left idle. Tied to /repo by a crash sweep over every callback position of recorded traces: on the eight synchronous classes (flat configurations) by model equality, the same compiled acceptor on implementation traces and a survivor-vs-fresh continuation differential (on another thread for locked classes); on nested/parallel configurations and the async classes (HierarchicalMachine, LockedHierarchicalMachine, AsyncMachine, HierarchicalAsyncMachine) by a containment oracle stating the clauses directly (nothing of a later stage, finalize exactly once, handlers iff registered, outcome, state frozen from the failing stage on, source state at or before the exit callbacks) plus the same survivor-vs-fresh differential; exception kinds include Exception, BaseException and builtin types (KeyError, IndexError, OSError, ...).",
@@ -603,7 +608,8 @@ ONF = SLOT['on_final']
 
 
 def nm_knobs():
-    return nested.NKnobs(max_history=4, max_states=10, max_depth=3, p_cmds=0.06, p_unknown_event=0.04, p_queued=0.35)
+    return nested.NKnobs(max_history=4, max_states=10, max_depth=3, p_cmds=0.06, p_unknown_event=0.04, p_queued=0.35,
+                         p_parallel=0.6, p_compound=0.8, max_roots=2, p_noinit=0.1, p_collide=0.0)
 
 
 def nm_decorate(d, rng):
@@ -620,11 +626,12 @@ def nm_decorate(d, rng):
         n['final'] = rng.random() < (0.5 if leaf else 0.2)
         n['on_final'] = [cb() for _ in range(rng.choice([0, 1, 1, 2]))]
     d.on_final = [cb()] if rng.random() < 0.6 else []
-    if not d.queued and rng.random() < 0.25:
+    if not d.queued and rng.random() < 0.35:
         known = sorted(set([e for e, _ in d.events] + [e for _p, n in d.walk() for e, _ts in n['local']])) or [0]
         cands = [c for c, sl in d.cb_slot.items() if sl not in (SLOT['conditions'], SLOT['unless'], FIN, EXC)]
+        chain = [c for c in cands if d.cb_slot[c] in (SLOT['on_enter'], SLOT['on_exit'])]
         for _ in range(rng.choice([1, 1, 2])):
-            c = rng.choice(cands)
+            c = rng.choice(chain if chain and rng.random() < 0.5 else cands)
             k = rng.randrange(2)
             if (c, k) not in d.script:
                 d.script[(c, k)] = ([(flat.TRIGGER, 0, rng.choice(known))], ('ret', True))
@@ -694,6 +701,81 @@ def nm_parse(ans):
     return items, nested.dec_svals([int(x) for x in c.split()]), [int(x) for x in q.split()]
 
 
+_SCOPE_DEFECT = []
+
+
+def nm_scope_defect_present():
+    """does the tree under test reproduce finding F-C04N-reentrant-scope-name?  (20-line probe on the plain API: a
+    trigger issued from the enter callback of A_B_C whose transition re-enters A_B through `initial` descent)"""
+    if not _SCOPE_DEFECT:
+        from transitions.extensions import HierarchicalMachine
+
+        class Probe(object):
+            n = 0
+
+            def enter_c(self):
+                self.n += 1
+                if self.n == 3:
+                    self.go()
+        states = [{'name': 'A', 'initial': 'B',
+                   'children': [{'name': 'B', 'initial': 'C', 'children': [{'name': 'C', 'on_enter': 'enter_c'}]}],
+                   'transitions': [['go', 'B_C', 'B']]}]
+        m = Probe()
+        HierarchicalMachine(m, states=states, initial='A')
+        try:
+            m.go()
+            m.go()
+            m.go()
+            _SCOPE_DEFECT.append(False)
+        except ValueError:
+            _SCOPE_DEFECT.append(True)
+    return _SCOPE_DEFECT[0]
+
+
+class NMRun(nested.NestedRun):
+    """NestedRun that notes when a callback triggers an event on an unqueued machine while the naming scope of some
+    state is set (`NestedState._scope` non-empty: that state's scoped_enter / scoped_exit is in progress) — the corner
+    of finding F-C04N-reentrant-scope-name, which the engine model does not cover"""
+
+    def __init__(self, *a, **kw):
+        self.depth = 0
+        self.scope_live = []
+        self.rejected_trees = []       # state values the engine built itself and its own `set_state` then rejected
+        nested.NestedRun.__init__(self, *a, **kw)
+        orig = self.machine.set_state
+
+        def set_state(state, model=None):
+            try:
+                return orig(state, model)
+            except ValueError:
+                self.rejected_trees.append(repr(state)[:200])
+                raise
+        self.machine.set_state = set_state
+
+    def _scoped_states(self):
+        out = []
+
+        def rec(states, pre):
+            for name, st in states.items():
+                if getattr(st, '_scope', None):
+                    out.append('_'.join(pre + [name]))
+                rec(st.states, pre + [name])
+        # `machine.states` is the dictionary of the scope the machine is in right now: start from the root scope
+        rec(self.machine._stack[0][1] if self.machine._stack else self.machine.states, [])
+        return out
+
+    def trigger(self, ev):
+        if self.depth > 0 and not self.d.queued:
+            live = self._scoped_states()
+            if live:
+                self.scope_live.append((self.next_tag, live))
+        self.depth += 1
+        try:
+            return nested.NestedRun.trigger(self, ev)
+        finally:
+            self.depth -= 1
+
+
 def nm_run(d, cls, cont=None, place=None):
     """(run, error): history of `d` (then `cont`) on class `cls`; `place` = (state value, counts, next tag) to start from"""
     import signal
@@ -701,7 +783,7 @@ def nm_run(d, cls, cont=None, place=None):
     signal.alarm(30)
     r = None
     try:
-        r = nested.NestedRun(d, cls)
+        r = NMRun(d, cls)
         if place is not None:
             stv, counts, tag = place
             r.machine.set_state(stv, r.model)
@@ -754,6 +836,19 @@ def nm_judge(case, d, hm, err, other, oerr, fresh, ferr, answers):
     if hm.bad:
         fail('monitor', 'nested-recorder:' + hm.bad[0][0], {'bad': hm.bad[:4]}, sig='C04.nested.' + hm.bad[0][0])
     m = nm_parse(answers[0])
+    if hm.scope_live and nm_scope_defect_present() and m is not None:
+        # the corner of the open finding F-C04N-reentrant-scope-name (outside the engine model: `_scope` is not
+        # modelled).  Narrow: a re-entrant call was issued while a naming scope was live AND `_update_model` was
+        # handed a state value that `set_state` rejected (a name that is no registered state — the engine built it
+        # itself) AND the trace departs from the model's.  Only the finding is reported then; any other divergence in
+        # this corner is judged like everywhere else.
+        if hm.rejected_trees and (m[0] != hm.items or m[1] != hm.states_after):
+            fail('monitor', 'nested-reentrant-scope-name', {
+                'reentrant_calls_with_a_live_scope': [[t, l] for t, l in hm.scope_live[:4]],
+                'state_values_rejected_by_set_state': hm.rejected_trees[:3],
+                'impl_trace': [common.show_item(i) for i in hm.items[:120]], 'states': hm.states_after},
+                sig='C04.nested.scope-reentrancy')
+            return out
     if m is not None:
         items, vals, _q = m
         if items != hm.items or vals != hm.states_after:
@@ -869,7 +964,8 @@ def nm_chunk(seed, idx, nbase, tier):
             for key, val in (('crash_slot', info['slot']), ('class', 'nested-model:HierarchicalMachine'),
                              ('class', 'nested-model:' + str(case['cls'])), ('handlers', str(info['handlers'])),
                              ('exc', info['exc']), ('second_fault', str(info['extra'])), ('queued', str(d.queued)),
-                             ('nested_reentrant', str(any(v[0] for v in d.script.values())))):
+                             ('nested_reentrant', str(any(v[0] for v in d.script.values()))),
+                             ('nested_reentrant_with_live_scope', str(bool(hm is not None and hm.scope_live)))):
                 h = ex.stats.setdefault(key, {})
                 h[val] = h.get(val, 0) + 1
             if hm is not None:
@@ -906,6 +1002,104 @@ def nm_fails_like(kind, what):
     return f
 
 
+# ---------------------------------------------------------------------------------------------
+# the verified acceptor on the cases of the oracle stream above (hierarchical synchronous setups)
+# ---------------------------------------------------------------------------------------------
+
+def na_to_ndesc(d):
+    """the tree-imposed flat description of the oracle stream as an `NDesc` (segment id of a state = its index)"""
+    nd = nested.NDesc()
+
+    def path(i):
+        p = []
+        while i is not None:
+            p.append(i)
+            i = d.states[i]['parent']
+        return list(reversed(p))
+
+    def trans(t, rel):
+        f = (lambda i: [i]) if rel else path
+        return {'source': f(t['source']), 'dest': None if t['dest'] is None else f(t['dest']),
+                'prepare': list(t['prepare']), 'conds': [tuple(c) for c in t['conds']], 'before': list(t['before']),
+                'after': list(t['after'])}
+
+    def node(i):
+        s = d.states[i]
+        local = []
+        for ev, ts in d.events:
+            l = [trans(t, True) for t in ts if t.get('local') == i]
+            if l:
+                local.append((ev, l))
+        return {'name': i, 'children': [node(c) for c in s['children']],
+                'initial': list(s['children']) if s['parallel'] else ([s['init_child']] if s['children'] else []),
+                'pkey': bool(s['parallel']), 'ignore': s['ignore'], 'on_enter': list(s['on_enter']),
+                'on_exit': list(s['on_exit']), 'local': local, 'final': bool(s['final']), 'on_final': []}
+    nd.roots = [node(i) for i, s in enumerate(d.states) if s['parent'] is None]
+    nd.events = [(ev, l) for ev, l in ((ev, [trans(t, False) for t in ts if t.get('local') is None]) for ev, ts in d.events) if l]
+    nd.prepare_event, nd.before_sc, nd.after_sc = list(d.prepare_event), list(d.before_sc), list(d.after_sc)
+    nd.finalize, nd.on_exception, nd.on_final = list(d.finalize), list(d.on_exception), list(d.on_final)
+    nd.ignore, nd.queued, nd.initial = d.ignore, bool(d.qmode), path(d.initial)
+    return nd
+
+
+def na_monitor_requests(d, setup, items):
+    """one `c04n` request per model: the trace of the oracle stream projected to that model, state values as masks.
+    None when the case is outside the acceptor's vocabulary (callbacks that trigger events across models)."""
+    import ast
+    if any(v[0] for v in d.script.values()):
+        return None
+    nd = na_to_ndesc(d)
+    index = {nested.pname(p): i for i, (p, _n) in enumerate(nd.walk())}
+    probe = anested.NRun7(d, na_cls(setup[1]), False)
+
+    def mask(text):
+        return sum(2 ** index[name] for name in nested.flatten(ast.literal_eval(text)))
+    reqs = []
+    for m in d.models:
+        out, tags, keep = [], set(), False
+        for it in items:
+            if it[0] == 'api':
+                if it[3] == m:
+                    out.append((it[0], it[1], it[2], 0, it[4]))
+                    tags.add(it[2])
+            elif it[0] == 'call':
+                keep = it[3] == m
+                if keep:
+                    out.append(('call', it[1], it[2], 0, it[4], mask(it[5])))
+            elif it[0] == 'done':
+                if keep:
+                    out.append(it)
+            elif it[1] in tags:
+                out.append(it)
+        ncalls = sum(1 for it in out if it[0] == 'api')
+        reqs.append(('c04n', [(ncalls + 2) * 8, 2] + nd.enc_cfg4() + nested.enc_sval(getattr(probe.model_objs[m], 'state'))
+                     + common.enc_items(out)))
+    return reqs
+
+
+_na_oracle = na_oracle
+
+
+def na_oracle_and_monitor(d, setup, clean, X, cid, k, handlers):
+    out = _na_oracle(d, setup, clean, X, cid, k, handlers)
+    if setup[2] and not setup[3]:
+        try:
+            reqs = na_monitor_requests(d, setup, X)
+        except (ValueError, KeyError, SyntaxError) as e:     # a state value that names no registered state
+            return out + [('state-value-not-understood', {'error': repr(e)[:200]})]
+        if reqs:
+            for m, ans in zip(d.models, common.batch_driver(reqs)):
+                if ans != 'ok':
+                    if not ans.startswith('reject'):
+                        raise common.MachineryError('monitor answered %r' % ans[:200])
+                    out.append(('verified-containment-monitor', {'model': m, 'monitor': ans,
+                                                                 'trace': [common.show_item(i) for i in X[:80]]}))
+    return out
+
+
+na_oracle = na_oracle_and_monitor
+
+
 _explore2 = C04.explore
 _replay2 = C04.replay
 _search2 = C04.search
@@ -913,15 +1107,16 @@ _search2 = C04.search
 
 def _explore_nm(self, tier, seed):
     ex = _explore2(self, tier, seed)
-    nch, per = (16, 3) if tier == 'quick' else (48, 12)
+    nch, per = (16, 10) if tier == 'quick' else (32, 32)
     part_ex = Exploration()
     for part in runner.parallel(nm_chunk, [(seed, i, per, tier) for i in range(nch)]):
         part_ex.merge(part)
     done = set()
+    known = set(k.get('signature') for k in self.known())
     for f in part_ex.failures:
         key = (f.kind, f.what)
-        if key in done:
-            continue
+        if key in done or (f.kind == 'monitor' and f.signature in known):
+            continue        # a listed finding needs no shrinking: its minimal witness is in proposed_fixes/C04N_1.md
         done.add(key)
         try:
             f.case = runner.shrink(f.case, nm_fails_like(f.kind, f.what), nm_shrink_steps,
